@@ -279,6 +279,7 @@ class CustomFencedCode(block.FencedCode):
     """
 
     lang: str
+    raw_lang: str
     extra: str
     children: list[inline.RawText]
     fence_char: str = "`"
@@ -290,6 +291,8 @@ class CustomFencedCode(block.FencedCode):
         # We intentionally don't call super().__init__ because we need a different
         # tuple format that includes fence_char and fence_len
         self.lang = inline.Literal.strip_backslash(match[0])
+        # The language word as written (with its backslash escapes), for writing it back.
+        self.raw_lang = match[0]
         self.extra = match[1]
         self.children = [inline.RawText(match[2], False)]
         self.fence_char = match[3]
@@ -678,6 +681,8 @@ class MarkdownNormalizer(Renderer):
         if code_content.endswith("\n"):
             code_content = code_content[:-1]
         lang = element.lang if isinstance(element, block.FencedCode) else ""
+        if isinstance(element, CustomFencedCode):
+            lang = element.raw_lang
         extra = element.extra if isinstance(element, block.FencedCode) else ""
         extra_text = f" {extra}" if extra else ""
         lang_text = f"{lang}{extra_text}" if lang else ""
